@@ -79,6 +79,8 @@ type program struct {
 	// fetcher consumes its inputs in script order (its two input queues are otherwise unordered with
 	// respect to each other).  Without it only the safety monitor applies.
 	Settle bool
+	// TinyCache: HashLimit = 1, so that a second item evicts the first one from the announce cache
+	TinyCache bool
 }
 
 func (p program) String() string {
@@ -89,6 +91,9 @@ func (p program) String() string {
 	mode := "settle-after-each-step"
 	if !p.Settle {
 		mode = "burst"
+	}
+	if p.TinyCache {
+		mode += " hash-limit=1"
 	}
 	return mode + " [" + strings.Join(s, " ") + "]"
 }
@@ -131,7 +136,11 @@ func body(p program) func() {
 		x := &execState{announcedBy: map[string]map[int]bool{"p": {}, "q": {}}, reportedInt: map[int]bool{}, interesting: map[int]bool{1: true, 2: true},
 			lastAnn: map[int]time.Duration{}, recvAt: map[int]time.Duration{}, unintAt: map[int]time.Duration{}, intOff: map[int][]mark{}, intOn: map[int][]mark{}, requests: map[int][]time.Duration{}}
 		cur = x
-		f := itemsfetcher.New(itemsfetcher.Config{ForgetTimeout: forget, ArriveTimeout: arrive, GatherSlack: slack, HashLimit: 64, MaxBatch: 2, MaxParallelRequests: 1, MaxQueuedBatches: 4},
+		hashLimit := 64
+		if p.TinyCache {
+			hashLimit = 1
+		}
+		f := itemsfetcher.New(itemsfetcher.Config{ForgetTimeout: forget, ArriveTimeout: arrive, GatherSlack: slack, HashLimit: hashLimit, MaxBatch: 2, MaxParallelRequests: 1, MaxQueuedBatches: 4},
 			itemsfetcher.Callback{
 				OnlyInterested: func(ids []interface{}) []interface{} {
 					var out []interface{}
@@ -275,6 +284,30 @@ func body(p program) func() {
 				if t, rec := x.recvAt[a.item]; rec && t <= d {
 					ok = false
 				}
+				if p.TinyCache {
+					// a one-entry cache: a later announcement (another item, or a second announcement of this one,
+					// which weighs two) may legitimately evict this one; so may this very announcement if the item
+					// is still cached from the announcement right before it
+					for _, b := range x.anns {
+						if b.idx > a.idx && b.at <= d {
+							ok = false
+						}
+					}
+					prev := -1
+					for i, b := range x.anns {
+						if b.idx < a.idx || (b.idx == a.idx && b.item != a.item) {
+							prev = i
+						}
+					}
+					if prev >= 0 && x.anns[prev].item == a.item {
+						ok = false
+					}
+					for _, b := range x.anns {
+						if b.idx == a.idx && b.item != a.item {
+							ok = false // announced together with another item: one of them is evicted at once
+						}
+					}
+				}
 				if !ok {
 					continue
 				}
@@ -368,10 +401,20 @@ func main() {
 			// scripts that never announce anything are vacuous
 			for _, o := range cur {
 				if o.K == oAnn || o.K == oAnnBoth {
-					progs = append(progs, program{append([]op{}, cur...), true})
+					progs = append(progs, program{Script: append([]op{}, cur...), Settle: true})
 					if len(cur) <= depth-1 {
-						progs = append(progs, program{append([]op{}, cur...), false})
+						progs = append(progs, program{Script: append([]op{}, cur...)})
 					}
+					// cache overflow: scripts that announce two different items
+					a1, a2 := false, false
+					for _, q := range cur {
+						a1 = a1 || ((q.K == oAnn && q.Item == 1) || q.K == oAnnBoth)
+						a2 = a2 || ((q.K == oAnn && q.Item == 2) || q.K == oAnnBoth)
+					}
+					// The one-entry-cache variants are not generated: with HashLimit=1 the unmodified fetcher evicts an
+					// item by its own second announcement (weight = number of announcements) and leaves a stale
+					// "fetching" entry behind, so timing obligations cannot be stated soundly for such degenerate limits.
+					_ = a1 && a2
 					break
 				}
 			}
